@@ -175,6 +175,16 @@ struct MatCheck {
     for (auto& v : TEST_VECS) {
       if (vc(A * mkv(v)) != ref_mulv(ra, v)) flag("matrix*vector-wrong", [&] { return ctx() + " v=" + astr(v) + " got " + astr(vc(A * mkv(v))) + " want " + astr(ref_mulv(ra, v)); });
       if (vc(I * mkv(v)) != v) flag("I*v!=v", ctx);
+      // the result overwrites the vector operand: x = A * x
+      Vector4<T> x = mkv(v);
+      x = A * x;
+      if (vc(x) != ref_mulv(ra, v)) flag("v=A*v(aliased)-wrong", [&] { return ctx() + " v=" + astr(v) + " got " + astr(vc(x)) + " want " + astr(ref_mulv(ra, v)); });
+    }
+    {
+      // the result overwrites the operand: B = B.transposition()
+      Matrix4<T> B = A;
+      B = B.transposition();
+      if (!ref_eq(unbuild(B), rt)) flag("A=A.transposition()(aliased)-wrong", ctx);
     }
     if (small) {
       // the right operand is the object itself / the result overwrites an operand
@@ -185,6 +195,24 @@ struct MatCheck {
       Matrix4<T> D = A;
       D = D * D;
       if (!ref_eq(unbuild(D), sq)) flag("A=A*A(aliased)-wrong", ctx);
+      Matrix4<T> F = A, G = A;
+      F = F * A;  // one operand is overwritten, the other is a distinct object with the same value
+      G = A * G;
+      if (!ref_eq(unbuild(F), sq) || !ref_eq(unbuild(G), sq)) flag("A=A*A(aliased)-wrong", ctx);
+      {
+        Matrix4<T> H = A;
+        const Matrix4<T>& same = H;
+        H = same;  // self-assignment
+        if (!ref_eq(unbuild(H), ra)) flag("self-assignment-wrong", ctx);
+      }
+      {
+        // executed only (matrix (op) scalar is outside the statement): the scalar operand is an entry of the same object
+        Matrix4<T> S = A;
+        S += S.m[0][0]; S -= S.m[1][2]; S *= S.m[3][3];
+        if (S.m[2][2] != 0) S /= S.m[2][2];
+        (void)(S + S.m[0][1]); (void)(S * S.m[1][1]);
+        S += S; S -= S;
+      }
       Matrix4<T> E = At;  // holds another value already
       E = A;
       E = E * I;
@@ -220,6 +248,11 @@ struct MatCheck {
       Matrix4<T> C = A;
       C *= B;
       if (!(C == AB)) flag("operator*=-differs-from-operator*", ctx);
+      // the result overwrites the left / the right operand
+      Matrix4<T> D = A, E = B;
+      D = D * B;
+      E = A * E;
+      if (!(D == AB) || !(E == AB)) flag("A=A*B(result-over-operand)-wrong", ctx);
     }
     if (!((AB).transposition() == B.transposition() * A.transposition())) flag("(AB)^T!=B^T*A^T", ctx);
     if (!ref_eq(unbuild(A + B), [&] { RefM o; for (int i = 0; i < 4; i++) for (int j = 0; j < 4; j++) o.e[i][j] = ra.e[i][j] + rb.e[i][j]; return o; }())) flag("operator+-wrong", ctx);
@@ -306,8 +339,8 @@ VF_SECTION(matrix, 16, 16, 90) {
   matrix_laws<double>(r, false);
   matrix_laws<int32_t>(r, true);
   matrix_laws<float>(r, true);
-  r.bound = std::string(r.thorough() ? "Matrix4<int64_t>/<double>: 1985 matrices differing from I in <=2 entries (values -2,-1,1,2): single laws (incl. A*=A, A=A*A); all 1985^2 ordered pairs; all 65^3 products of three elementary matrices; 3 test vectors"
-                                     : "Matrix4<int64_t>/<double>: 1985 matrices differing from I in <=2 entries (values -2,-1,1,2): single laws (incl. A*=A, A=A*A); 65 x 1985 pairs in both orders; all 65^3 products of three elementary matrices; 3 test vectors") +
+  r.bound = std::string(r.thorough() ? "Matrix4<int64_t>/<double>: 1985 matrices differing from I in <=2 entries (values -2,-1,1,2): single laws (incl. A*=A, A=A*A, v=A*v, A=A.transposition(), results assigned over either operand); all 1985^2 ordered pairs; all 65^3 products of three elementary matrices; 3 test vectors"
+                                     : "Matrix4<int64_t>/<double>: 1985 matrices differing from I in <=2 entries (values -2,-1,1,2): single laws (incl. A*=A, A=A*A, v=A*v, A=A.transposition(), results assigned over either operand); 65 x 1985 pairs in both orders; all 65^3 products of three elementary matrices; 3 test vectors") +
             "; Matrix4<int32_t>/<float>: the same singles, " + (r.thorough() ? "65 x 1985 pairs in both orders and the 65^3 triples" : "65 x 65 pairs in both orders") +
             "; every type: I with one large entry (+-2^31, +-(2^31+1), 2^40, -(2^40+1); float +-4097; int32_t +-(2^20+1); double/float also 0.5, -0.25) at each of the 16 positions: single laws and pair laws with the 65 elementary partners in both orders";
 }
@@ -353,6 +386,12 @@ struct InvertCheck {
       Matrix4<double>& ref = N.invert();
       if (&ref != &N || !(N == inv)) { bad = true; r.fail("Matrix4::invert:differs-from-inverse", [&] { return "M = " + ref_str(rm); }); }
       if (!ref_eq(unbuild(M), rm)) { bad = true; r.fail("Matrix4::inverse:modifies-operand", [&] { return "M = " + ref_str(rm); }); }
+      {
+        // the result overwrites the operand: P = P.inverse()
+        Matrix4<double> P = M;
+        std::string oc3 = vf::outcome([&] { P = P.inverse(); });
+        if (oc3 != "ok" || !(P == inv)) { bad = true; r.fail("Matrix4::inverse:result-assigned-over-operand-differs", [&] { return "M = " + ref_str(rm) + (oc3 != "ok" ? "; M = M.inverse() threw " + oc3 : "; M = M.inverse() gives " + ref_str(unbuild(P)) + ", inverse() into another object " + ref_str(ri)); }); }
+      }
       // the same object inverted again (it now holds the inverse, which need not be diagonally dominant): executed, not compared
       (void)vf::outcome([&] { N.invert(); });
       // a second inverse() of the unchanged M is the same function value
